@@ -3,6 +3,7 @@
 package verifrt
 
 import (
+	"strconv"
 	"encoding/json"
 	"fmt"
 	"os"
@@ -287,12 +288,23 @@ func RunBatch(path string, reg map[string]func(int)) error {
 	if err := json.Unmarshal(b, &cases); err != nil {
 		return err
 	}
-	results := make([]CaseResult, len(cases))
-	for i, c := range cases {
-		results[i] = runCase(c, reg)
+	// VERIF_BATCH_FROM: resume after a case that killed the process (a fatal error of the
+	// Go runtime cannot be recovered); the results so far are kept in <path>.out.part so
+	// that the engine can tell which case that was
+	from, _ := strconv.Atoi(os.Getenv("VERIF_BATCH_FROM"))
+	if from < 0 || from > len(cases) {
+		from = 0
+	}
+	results := make([]CaseResult, 0, len(cases)-from)
+	for _, c := range cases[from:] {
+		r := runCase(c, reg)
 		// schedule-dependent cases: repeat until the failure shows
-		for k := 1; k < c.Repeat && results[i].Fail == "" && results[i].Panic == ""; k++ {
-			results[i] = runCase(c, reg)
+		for k := 1; k < c.Repeat && r.Fail == "" && r.Panic == ""; k++ {
+			r = runCase(c, reg)
+		}
+		results = append(results, r)
+		if part, err := json.Marshal(results); err == nil {
+			os.WriteFile(path+".out.part", part, 0o644)
 		}
 	}
 	out, _ := json.Marshal(results)
